@@ -15,7 +15,9 @@
      - the failure point comes before the first COMPLETED discard-snap of the change (garbage collection has no undo);
      - rs_guard: the operation is a revert, or its target revision is not marked NotBlocked in RevertStatus;
      - cfg_guard: the snap has some configuration, or nothing writes configuration during the change.
-   `wf` is the invariant of reachable states; C11_reachable_wf (props/C11.v) proves that every history reaches only wf states.
+   `wf` is the invariant of settled states: props/C11.v proves that it holds of the empty state and is preserved by refused
+   operations, completed install / revert / disable and the failed operations covered here (C11_consistent_invariant_partial);
+   its preservation by completed refresh / remove / enable is monitored on the implementation, not proved.
    Aliases, services, security profiles and data directories are not modelled (tasks of other managers are opaque). *)
 From Coq Require Import List NArith ZArith Bool.
 Import ListNotations.
